@@ -146,7 +146,7 @@ def outcomeJson (o : Outcome) : Json :=
         (S "history", .arr (List.zipWith timedJson o.history o.times)), (S "endTime", ratJson o.endTime),
         (S "notifications", .arr (o.notifications.map (fun n => .arr [.str n.1, n.2]))),
         (S "steps", .arr (o.steps.map stepJson)), (S "tieJoin", .bool o.tieJoin), (S "late", .bool o.late),
-        (S "sk", .arr (toksJson o.sk))]
+        (S "sk", .arr (toksJson o.sk)), (S "execTimeout", .bool o.execTimeout)]
 
 mutual
 /-- every payload template and every Choice rule of the definition is inside what the full
@@ -183,14 +183,24 @@ def fullChoose (state input _raw ctx : Json) : Option Str :=
 def fullTmpl (input ctx t : Json) : Except PErr Json :=
   (evalTemplate (Templates.oracles []) Quirks.none input ctx t).map normalise
 
+/-- a top-level `TimeoutSeconds`, if the definition has one, is a number (anything else is an illegal definition) -/
+def limitSupported (a : Json) : Bool :=
+  match a.get "TimeoutSeconds" with
+  | none => true
+  | some (.num _) => true
+  | some _ => false
+
 /-- `run` with the full Template / Choice models; `maxData` is the size limit of the engine run
-(`MAX_DATA_LENGTH`), by default the model's own default (262144) -/
-def runFull (asl input ctx oracle fuel : String) (maxData : Option Nat) : String :=
+(`MAX_DATA_LENGTH`), by default the model's own default (262144); `quirks`: the switches of open findings, by name
+(comma-separated; `retryPastDeadline` = C08-F1).  The execution's time limit is the definition's top-level
+`TimeoutSeconds` (`Asl.run` reads it). -/
+def runFull (asl input ctx oracle fuel : String) (maxData : Option Nat) (quirks : String := "") : String :=
   match rd asl, rd input, rd ctx, rd oracle, fuel.toNat? with
   | some a, some i, some c, some o, some f =>
-    if !fullSupported 200 a then "unsupported"
+    if !fullSupported 200 a || !limitSupported a then "unsupported"
     else
-      let env0 : Env := { tmpl := fullTmpl, choose := fullChoose, task := oracleFn o, delay := oracleDelay o }
+      let env0 : Env := { tmpl := fullTmpl, choose := fullChoose, task := oracleFn o, delay := oracleDelay o,
+                          retryPastDeadline := (quirks.splitOn ",").contains "retryPastDeadline" }
       let env : Env := match maxData with
         | some l => { env0 with maxData := l }
         | none => env0
@@ -199,11 +209,16 @@ def runFull (asl input ctx oracle fuel : String) (maxData : Option Nat) : String
 
 def handle : List String → String
   | ["run", asl, input, ctx, oracle, fuel] => runFull asl input ctx oracle fuel none
-  -- small-limit mode: a seventh field, the size limit in characters
+  -- small-limit mode: a seventh field, the size limit in characters ("-": the default)
   | ["run", asl, input, ctx, oracle, fuel, maxData] =>
     match maxData.toNat? with
     | some l => runFull asl input ctx oracle fuel (some l)
-    | none => "unsupported"
+    | none => if maxData = "-" then runFull asl input ctx oracle fuel none else "unsupported"
+  -- an eighth field: the switches of open findings the model is to run with
+  | ["run", asl, input, ctx, oracle, fuel, maxData, quirks] =>
+    match maxData.toNat? with
+    | some l => runFull asl input ctx oracle fuel (some l) quirks
+    | none => if maxData = "-" then runFull asl input ctx oracle fuel none quirks else "unsupported"
   -- the length the size checks measure: `(render j).length`, to be compared with Python's `len(json.dumps(j))`
   | ["renderlen", j] =>
     match rd j with
